@@ -149,3 +149,23 @@ def crosses(va, vb):
             if 0 < u < 1 and 0 < v < 1:
                 return True
     return False
+
+
+def contacts(polys):
+    """exact: two DIFFERENT polygons of the list have a common point (a vertex of one on an edge of the other, or two edges crossing)"""
+    def edges(vs):
+        return [((F(vs[i][0]), F(vs[i][1])), (F(vs[(i + 1) % len(vs)][0]), F(vs[(i + 1) % len(vs)][1]))) for i in range(len(vs))]
+    E = [edges(vs) for vs in polys]
+    for i in range(len(polys)):
+        for j in range(len(polys)):
+            if i == j:
+                continue
+            for v in polys[i]:
+                p = (F(v[0]), F(v[1]))
+                for b0, b1 in E[j]:
+                    if (b1[0] - b0[0]) * (p[1] - b0[1]) - (b1[1] - b0[1]) * (p[0] - b0[0]) == 0 \
+                            and min(b0[0], b1[0]) <= p[0] <= max(b0[0], b1[0]) and min(b0[1], b1[1]) <= p[1] <= max(b0[1], b1[1]):
+                        return True
+            if i < j and crosses(polys[i], polys[j]):
+                return True
+    return False
